@@ -102,8 +102,9 @@ impl Log<'_> {
             return;
         }
         self.nctor += 1;
+        let cls: Vec<Value> = crate::dump::ranges_of(res.char_ranges()).into_iter().map(|(lo, hi)| json!([lo, hi])).collect();
         self.out.emit(json!({"op":"ctor","f":f,"fam":self.fam,"id":self.id,"args":a,"ints":ints,"res":r,
-            "nullable":res.nullable,"sem": w <= SEM_WEIGHT}));
+            "nullable":res.nullable,"cls":cls,"sem": w <= SEM_WEIGHT}));
     }
 }
 
